@@ -713,4 +713,16 @@ theorem schedule_sum_is_spec_time (n : Nat) (s : Cpu) (z : ZX) (hg : Good z.ctl)
       specReplay z.ctl.kind (total z.ctl) (Z80.run .hw n (s, z)).2.tlog.reverse := by
   rw [← (program_schedule n s z hg h0).2.2.1, (program_time_is_spec_time n s z hg h0).1]
 
+/-! a decidable sufficient condition for `Quiet` -/
+
+def isIo : TOp → Bool
+  | .io _ => true
+  | _ => false
+
+theorem quiet_of_no_io (d : List (BitVec 8 × TOp)) (h : d.all (fun e => !isIo e.2) = true) : Quiet d := by
+  intro e he p hp
+  have := List.all_eq_true.mp h e he
+  rw [hp] at this
+  cases this
+
 end ZxVerif.RawWaits
